@@ -5,7 +5,7 @@ import TshVerif.Lemmas.Sem2ExprMain
 import TshVerif.Lemmas.SemAssign
 namespace Tsh.Sem2
 open Tsh Tsh.Tr Tsh.Bash Tsh.Sem Tsh.Sem2.Src
-open Tsh.Sem.Src (Val Env)
+open Tsh.Sem.Src (Val Env sliceName)
 
 /-- loop flags between `B` and `k` keep their values -/
 def FlagsKept (B k : Nat) (m m' : Cfg) : Prop := ∀ n, B ≤ n → n < k → m'.ρ (flagName n) = m.ρ (flagName n)
@@ -32,19 +32,19 @@ def SimF (ctx : Ctx) (T : List FEntry) (B : Nat) (src : Nat → SCfg → Option 
 
 /-- what translating a statement (or a block) from converter state `s` to `s'` achieved -/
 def StmtSemF (ctx : Ctx) (T : List FEntry) (B : Nat) (src : Nat → SCfg → Option (SOut × SCfg)) (s s' : St) : Prop :=
-  ∃ cmds n mm, s' = adv2 s (flats cmds).reverse n mm ∧ LinesOK ctx (s.forCounter + mm) (tnames T) (flats cmds) ∧
+  ∃ cmds n mm rq, s' = reqSt (adv2 s (flats cmds).reverse n mm) rq ∧ LinesOK ctx (s.forCounter + mm) (tnames T) (flats cmds) ∧
     SimF ctx T B src cmds s.forCounter
 
 theorem ctxOf_adv2 (s : St) (new : List Line) (n mm : Nat) : ctxOf (adv2 s new n mm) = ctxOf s := rfl
 
 theorem StmtSemF.ctx {ctx : Ctx} {T : List FEntry} {B : Nat} {src} {s s' : St} (h : StmtSemF ctx T B src s s') : ctxOf s' = ctxOf s := by
-  obtain ⟨_, _, _, e, _, _⟩ := h; rw [e]; rfl
+  obtain ⟨_, _, _, _, e, _, _⟩ := h; rw [e]; rfl
 
 theorem StmtSemF.forCounter {ctx : Ctx} {T : List FEntry} {B : Nat} {src} {s s' : St} (h : StmtSemF ctx T B src s s') : s.forCounter ≤ s'.forCounter := by
-  obtain ⟨_, _, m, e, _, _⟩ := h; rw [e]; simp [adv2]
+  obtain ⟨_, _, m, _, e, _, _⟩ := h; rw [e]; simp [adv2, reqSt]
 
 theorem StmtSemF.fors {ctx : Ctx} {T : List FEntry} {B : Nat} {src} {s s' : St} (h : StmtSemF ctx T B src s s') : s'.fors = s.fors := by
-  obtain ⟨_, _, _, e, _, _⟩ := h; rw [e]; rfl
+  obtain ⟨_, _, _, _, e, _, _⟩ := h; rw [e]; rfl
 
 theorem Inv.out {ctx : Ctx} {T : List FEntry} {c : SCfg} {m : Cfg} (h : Inv ctx T c m) : c.out = m.out := h.agree.out
 
@@ -76,7 +76,7 @@ theorem brk_semF {ctx : Ctx} {T : List FEntry} {B : Nat} {s s' : St} (h : conv.b
     StmtSemF ctx T B (fun fuel c => execS fuel .brk c) s s' := by
   have h' : addLine .brk s = .ok ((), s') := h
   have e := addLine_ok h'
-  refine ⟨[Cmd.simple .brk], 0, 0, by rw [e]; simp [adv2, flats, flat], linesOK_simples (ls := [.brk]) (linesOK_plain1 _ _ _ _ rfl rfl), ?_⟩
+  refine ⟨[Cmd.simple .brk], 0, 0, Req.none, by rw [e, reqSt_none]; simp [adv2, flats, flat], linesOK_simples (ls := [.brk]) (linesOK_plain1 _ _ _ _ rfl rfl), ?_⟩
   intro fuel c o c' hs m hi
   cases fuel with
   | zero => simp [execS] at hs
@@ -90,7 +90,7 @@ theorem cont_semF {ctx : Ctx} {T : List FEntry} {B : Nat} {s s' : St} (h : conv.
     StmtSemF ctx T B (fun fuel c => execS fuel .cont c) s s' := by
   have h' : addLine .cont s = .ok ((), s') := h
   have e := addLine_ok h'
-  refine ⟨[Cmd.simple .cont], 0, 0, by rw [e]; simp [adv2, flats, flat], linesOK_simples (ls := [.cont]) (linesOK_plain1 _ _ _ _ rfl rfl), ?_⟩
+  refine ⟨[Cmd.simple .cont], 0, 0, Req.none, by rw [e, reqSt_none]; simp [adv2, flats, flat], linesOK_simples (ls := [.cont]) (linesOK_plain1 _ _ _ _ rfl rfl), ?_⟩
   intro fuel c o c' hs m hi
   cases fuel with
   | zero => simp [execS] at hs
@@ -135,12 +135,12 @@ theorem esim_all_cons {ctx : Ctx} {T : List FEntry} {B : Nat} {e : Expr} {rest :
 theorem all_semF {ctx : Ctx} {T : List FEntry} {B : Nat} (hT : TableOK T) (hctx : CtxOK ctx T B) :
     ∀ (es : List Expr) (s : St) (ts : List String) (s' : St), fragEs (tnames T) es = true → ctxOf s = ctx →
       evalAll conv es s = .ok (ts, s') →
-      ∃ new n, s' = adv s new n ∧ ESim ctx T B (fun f c => Src.evalArgs f es c) new s.varCounter n ts
+      ∃ new n rq, s' = reqSt (adv s new n) rq ∧ ESim ctx T B (fun f c => Src.evalArgs f es c) new s.varCounter n ts
   | [], s, ts, s', _, hc, h => by
     unfold evalAll at h
     obtain ⟨er, es⟩ := pure_ok h
     subst er
-    refine ⟨[], 0, es, esim_leaf ctx T B _ _ _ ?_⟩
+    refine ⟨[], 0, Req.none, by rw [es, reqSt_none]; rfl, esim_leaf ctx T B _ _ _ ?_⟩
     intro fuel c res hs
     cases fuel with
     | zero => simp [Src.evalArgs] at hs
@@ -153,12 +153,12 @@ theorem all_semF {ctx : Ctx} {T : List FEntry} {B : Nat} (hT : TableOK T) (hctx 
     obtain ⟨r, s1, h1, h⟩ := bind_ok h
     obtain ⟨rs, s2, h2, h⟩ := bind_ok h
     obtain ⟨er, es⟩ := pure_ok h
-    obtain ⟨newE, nE, e1, simE⟩ := expr_semF hT hctx e s r s1 hf.1 hc h1
+    obtain ⟨newE, nE, rE, e1, simE⟩ := expr_semF hT hctx e s r s1 hf.1 hc h1
     subst e1
-    obtain ⟨newR, nR, e2, simR⟩ := all_semF hT hctx rest (adv s newE nE) rs s2 hf.2 (by rw [ctxOf_adv]; exact hc) h2
+    obtain ⟨newR, nR, rR, e2, simR⟩ := all_semF hT hctx rest (reqSt (adv s newE nE) rE) rs s2 hf.2 hc h2
     subst e2
     subst er
-    exact ⟨newR ++ newE, nE + nR, by rw [es, adv_adv], esim_all_cons simE simR⟩
+    exact ⟨newR ++ newE, nE + nR, rE.or rR, by rw [es]; simp only [adv_reqSt, reqSt_reqSt, adv_adv], esim_all_cons simE simR⟩
 
 theorem resolveAll_length {c : SCfg} : ∀ {os : List Opd} {vs : List Val}, resolveAll c os = some vs → vs.length = os.length
   | [], vs, h => by simp only [resolveAll, Option.some.injEq] at h; subst h; rfl
@@ -216,12 +216,12 @@ theorem print_semF {ctx : Ctx} {T : List FEntry} {B : Nat} (hT : TableOK T) (hct
     (h : (do let vs ← evalAll conv es; conv.print vs : BM Unit) s = .ok ((), s')) :
     StmtSemF ctx T B (fun fuel c => execS fuel (.print es) c) s s' := by
   obtain ⟨vals, s1, h1, h2⟩ := bind_ok h
-  obtain ⟨new, n, e1, sim⟩ := all_semF hT hctx es s vals s1 hf hc h1
+  obtain ⟨new, n, rq, e1, sim⟩ := all_semF hT hctx es s vals s1 hf hc h1
   subst e1
-  have h2' : addLine (.echo (" ".intercalate vals)) (adv s new n) = .ok ((), s') := h2
+  have h2' : addLine (.echo (" ".intercalate vals)) (reqSt (adv s new n) rq) = .ok ((), s') := h2
   have es' := addLine_ok h2'
-  refine ⟨(new.reverse ++ [Line.echo (" ".intercalate vals)]).map Cmd.simple, n, 0, ?_, ?_, ?_⟩
-  · rw [es', flats_simples]; simp [adv, adv2]
+  refine ⟨(new.reverse ++ [Line.echo (" ".intercalate vals)]).map Cmd.simple, n, 0, rq, ?_, ?_, ?_⟩
+  · rw [es', flats_simples]; simp [adv, adv2, reqSt]
   · exact linesOK_simples (((sim.lines.reverse).mono (Nat.zero_le _)).append (linesOK_plain1 _ _ _ _ rfl rfl))
   · intro fuel c o c' hs m hi
     cases fuel with
@@ -239,7 +239,7 @@ theorem print_semF {ctx : Ctx} {T : List FEntry} {B : Nat} (hT : TableOK T) (hct
           have hst : stepSimple (.echo (" ".intercalate vals)) m1 = some (.normal, { m1 with out := m1.out ++ [" ".intercalate (vs.map Val.render)] }) := by
             simp only [stepSimple, hcmp.toExpand]
           refine ⟨{ m1 with out := m1.out ++ [" ".intercalate (vs.map Val.render)] }, .normal, ?_, trivial, ?_,
-            fun _ => ⟨⟨⟨hi1.agree.inFn, ?_, hi1.agree.glob, hi1.agree.loc⟩, hi1.tables⟩, hc1, hk1.flagsKept⟩, fun vs' hv => by cases hv⟩
+            fun _ => ⟨⟨⟨hi1.agree.inFn, ?_, hi1.agree.glob, hi1.agree.loc, ⟨hi1.agree.hp.dvc, hi1.agree.hp.heap, hi1.agree.hp.fresh⟩⟩, hi1.tables⟩, hc1, hk1.flagsKept⟩, fun vs' hv => by cases hv⟩
           · rw [List.map_append]
             exact execCmds_append ex (execCmds_step rfl hst)
           · show c1.out ++ _ = m1.out ++ _
@@ -259,15 +259,15 @@ theorem panic_semF {ctx : Ctx} {T : List FEntry} {B : Nat} (hT : TableOK T) (hct
     (h : (do let r ← Tr.evalExpr conv e true; conv.panic s!"panic: {firstValue r}" : BM Unit) s = .ok ((), s')) :
     StmtSemF ctx T B (fun fuel c => execS fuel (.panic e) c) s s' := by
   obtain ⟨r, s1, h1, h2⟩ := bind_ok h
-  obtain ⟨new, n, e1, sim⟩ := expr_semF hT hctx e s r s1 hf hc h1
+  obtain ⟨new, n, rq, e1, sim⟩ := expr_semF hT hctx e s r s1 hf hc h1
   subst e1
   have sim1 := esim_first sim
-  have h2' : (do addLine (.echo ("panic: " ++ firstValue r)); addLine .exit1 : BM Unit) (adv s new n) = .ok ((), s') := h2
+  have h2' : (do addLine (.echo ("panic: " ++ firstValue r)); addLine .exit1 : BM Unit) (reqSt (adv s new n) rq) = .ok ((), s') := h2
   obtain ⟨_, s2, h3, h4⟩ := bind_ok h2'
   have e3 := addLine_ok h3
   have e4 := addLine_ok h4
-  refine ⟨new.reverse.map Cmd.simple ++ [Cmd.simple (.echo ("panic: " ++ firstValue r)), Cmd.simple .exit1], n, 0, ?_, ?_, ?_⟩
-  · rw [e4, e3, flats_append, flats_simples]; simp [adv, adv2, flats, flat]
+  refine ⟨new.reverse.map Cmd.simple ++ [Cmd.simple (.echo ("panic: " ++ firstValue r)), Cmd.simple .exit1], n, 0, rq, ?_, ?_, ?_⟩
+  · rw [e4, e3, flats_append, flats_simples]; simp [adv, adv2, reqSt, flats, flat]
   · rw [flats_append, flats_simples]
     refine ((sim.lines.reverse).mono (Nat.zero_le _)).append ?_
     exact linesOK_simples (ls := [.echo ("panic: " ++ firstValue r), .exit1])
@@ -346,16 +346,16 @@ theorem ret_semF {ctx : Ctx} {T : List FEntry} {B : Nat} (hT : TableOK T) (hctx 
     (h : (do let vs ← Tr.evalArgs conv vals; conv.ret vs : BM Unit) s = .ok ((), s')) :
     StmtSemF ctx T B (fun fuel c => execS fuel (.ret vals) c) s s' := by
   obtain ⟨ts, s1, h1, h2⟩ := bind_ok h
-  obtain ⟨new, n, e1, sim⟩ := args_semF hT hctx vals s ts s1 hf hc h1
+  obtain ⟨new, n, rq, e1, sim⟩ := args_semF hT hctx vals s ts s1 hf hc h1
   subst e1
-  have h2' : (do storeRets ts 0; addLine .ret : BM Unit) (adv s new n) = .ok ((), s') := h2
+  have h2' : (do storeRets ts 0; addLine .ret : BM Unit) (reqSt (adv s new n) rq) = .ok ((), s') := h2
   obtain ⟨_, s2, h3, h4⟩ := bind_ok h2'
   rw [C02.return_registers_in_order] at h3
   injection h3 with h3
   injection h3 with _ e3
   have e4 := addLine_ok h4
-  refine ⟨new.reverse.map Cmd.simple ++ ((C02.retLines ts 0).map Cmd.simple ++ [Cmd.simple .ret]), n, 0, ?_, ?_, ?_⟩
-  · rw [e4, ← e3, flats_append, flats_append, flats_simples, flats_simples]; simp [adv, adv2, flats, flat]
+  refine ⟨new.reverse.map Cmd.simple ++ ((C02.retLines ts 0).map Cmd.simple ++ [Cmd.simple .ret]), n, 0, rq, ?_, ?_, ?_⟩
+  · rw [e4, ← e3, flats_append, flats_append, flats_simples, flats_simples]; simp [adv, adv2, reqSt, flats, flat]
   · rw [flats_append, flats_append, flats_simples, flats_simples]
     refine ((sim.lines.reverse).mono (Nat.zero_le _)).append ((retLines_ok ctx _ _ ts 0).append ?_)
     exact linesOK_simples (ls := [.ret]) (linesOK_plain1 _ _ _ _ rfl rfl)
@@ -487,12 +487,12 @@ theorem assign1_semF {ctx : Ctx} {T : List FEntry} {B : Nat} (hT : TableOK T) (h
       (∃ f ov c1 v, evalE f e c = some (.ok [ov] c1) ∧ resolve c1 ov = some v ∧ o = .normal ∧ c' = writeVar c1 x v)) :
     StmtSemF ctx T B src s s' := by
   obtain ⟨r, s1, hr, es'⟩ := assign1_ok h
-  obtain ⟨new, n, e1, sim⟩ := expr_semF hT hctx e s r s1 hf hc hr
+  obtain ⟨new, n, rq, e1, sim⟩ := expr_semF hT hctx e s r s1 hf hc hr
   subst e1
   have sim1 := esim_first sim
-  refine ⟨(new.reverse ++ [Line.assign (ctx.mg x.name x.global) (firstValue r)]).map Cmd.simple, n, 0, ?_, ?_, ?_⟩
-  · rw [es', flats_simples, varName_ctx, ctxOf_adv, hc]
-    simp [adv, adv2]
+  refine ⟨(new.reverse ++ [Line.assign (ctx.mg x.name x.global) (firstValue r)]).map Cmd.simple, n, 0, rq, ?_, ?_, ?_⟩
+  · rw [es', flats_simples, varName_ctx, ctxOf_reqSt, ctxOf_adv, hc]
+    simp [adv, adv2, reqSt]
   · refine linesOK_simples (((sim.lines.reverse).mono (Nat.zero_le _)).append (LinesOK.cons ⟨fun y hy => ?_, fun nm ar e' => (by cases e'), rfl⟩ (LinesOK.nil _ _ _)))
     simp only [lineTargets, List.mem_singleton] at hy
     exact Or.inr (Or.inr (Or.inl ⟨x.name, x.global, hx, hy⟩))
@@ -512,19 +512,140 @@ theorem assign1_semF {ctx : Ctx} {T : List FEntry} {B : Nat} (hT : TableOK T) (h
         rw [Sem.set_other _ _ _ _ (fun e' => mg_ne_flag' ctx x nn hx e'.symm)]
         exact hk1.flags nn hB
 
+/-! ### assignment to an element of a slice -/
+
+theorem sahSet_map {α β : Type} (f : α → β) (l : List α) (i : Nat) (v d : α) : sahSet (l.map f) i (f v) (f d) = (sahSet l i v d).map f := by
+  simp only [sahSet, List.length_map]
+  split <;> simp [List.map_set]
+
+theorem src_sliceAssign {fuel : Nat} {x : Var} {index value : Expr} {c c' : SCfg} {o : SOut}
+    (h : execS fuel (.sliceAssign x index value) c = some (o, c')) :
+    (∃ f k, evalSeq f [index, value] c = some (.exit k c') ∧ o = .exit k) ∨
+    (∃ f a b c2 k w id z i, evalSeq f [index, value] c = some (.ok [a, b] c2) ∧ resolve c2 a = some (.int k) ∧ resolve c2 b = some w ∧
+      readVar c2 x = some (.slice id) ∧ zeroVal (Expr.valueType value) = some z ∧ natOf k = some i ∧ id ≤ c2.next ∧ o = .normal ∧
+      c' = { c2 with heap := hset c2.heap id (sahSet (c2.heap id) i w z) }) := by
+  cases fuel with
+  | zero => simp [execS] at h
+  | succ f =>
+    simp only [execS] at h
+    split at h
+    · rename_i a c1 h1
+      split at h
+      · rename_i b c2 h2
+        split at h
+        · rename_i k w id z ha hb hx hz
+          split at h
+          · rename_i i hi
+            split at h
+            · rename_i hle
+              simp only [Option.some.injEq, Prod.mk.injEq] at h
+              exact Or.inr ⟨f, a, b, c2, k, w, id, z, i, by simp [evalSeq, h1, h2], ha, hb, hx, hz, hi, hle, h.1.symm, h.2.symm⟩
+            · simp at h
+          · simp at h
+        · simp at h
+      · rename_i k c2 h2
+        simp only [Option.some.injEq, Prod.mk.injEq] at h
+        obtain ⟨rfl, rfl⟩ := h
+        exact Or.inl ⟨f, k, by simp [evalSeq, h1, h2], rfl⟩
+      · simp at h
+    · rename_i k c1 h1
+      simp only [Option.some.injEq, Prod.mk.injEq] at h
+      obtain ⟨rfl, rfl⟩ := h
+      exact Or.inl ⟨f, k, by simp [evalSeq, h1], rfl⟩
+    · simp at h
+
+/-- the text of the zero value and the value it stands for -/
+theorem defaultValue_spec {vt : ValueType} {s s1 : St} {d : String} (h : defaultValue conv vt s = .ok (d, s1)) :
+    s1 = s ∧ ∀ z, zeroVal vt = some z → ∀ ρ : Store, Sem.expand ρ d = some z.render := by
+  unfold defaultValue at h
+  cases hd : vt.dt <;> simp only [hd] at h
+  case bool =>
+    obtain ⟨rfl, rfl⟩ := pure_ok h
+    refine ⟨rfl, fun z hz ρ => ?_⟩
+    simp only [zeroVal, hd, Option.some.injEq] at hz; subst hz
+    exact (complete_bool ρ false).toExpand
+  case int =>
+    obtain ⟨rfl, rfl⟩ := pure_ok h
+    refine ⟨rfl, fun z hz ρ => ?_⟩
+    simp only [zeroVal, hd, Option.some.injEq] at hz; subst hz
+    exact (complete_int ρ 0).toExpand
+  case string =>
+    have h' : (pure (stringToString "") : BM String) s = .ok (d, s1) := h
+    obtain ⟨rfl, rfl⟩ := pure_ok h'
+    refine ⟨rfl, fun z hz ρ => ?_⟩
+    simp only [zeroVal, hd, Option.some.injEq] at hz; subst hz
+    exact (Complete.nil ρ).toExpand
+  all_goals simp [Tr.fail] at h
+
+theorem sliceassign_semF {ctx : Ctx} {T : List FEntry} {B : Nat} (hT : TableOK T) (hctx : CtxOK ctx T B) {x : Var} {index value : Expr}
+    (hx : goodName2 x.name = true) (hfi : fragE (tnames T) index = true) (hfv : fragE (tnames T) value = true) {s s' : St} (hc : ctxOf s = ctx)
+    (h : (do let i ← Tr.evalExpr conv index true
+             let r ← Tr.evalExpr conv value true
+             let d ← defaultValue conv (Expr.valueType value)
+             conv.sliceAssignment x.name (firstValue i) (firstValue r) d x.global : BM Unit) s = .ok ((), s')) :
+    StmtSemF ctx T B (fun fuel c => execS fuel (.sliceAssign x index value) c) s s' := by
+  obtain ⟨ti, s1, h1, h⟩ := bind_ok h
+  obtain ⟨tv, s2, h2, h⟩ := bind_ok h
+  obtain ⟨d, s3, h3, h4⟩ := bind_ok h
+  obtain ⟨newI, nI, rI, e1, simI⟩ := expr_semF hT hctx index s ti s1 hfi hc h1
+  subst e1
+  obtain ⟨newV, nV, rV, e2, simV⟩ := expr_semF hT hctx value (reqSt (adv s newI nI) rI) tv s2 hfv hc h2
+  subst e2
+  obtain ⟨e3, hd⟩ := defaultValue_spec h3
+  subst e3
+  have h4' : (do Tr.modify (fun s => { s with sahReq := true }); let s ← Tr.get
+                 addLine (.sah (varEvalString s x.name x.global) (firstValue ti) (firstValue tv) d) : BM Unit)
+      (reqSt (adv (reqSt (adv s newI nI) rI) newV nV) rV) = .ok ((), s') := h4
+  simp only [bind, Tr.modify, Tr.get, addLine, varEvalString, varName_ctx] at h4'
+  injection h4' with h4'
+  injection h4' with _ es
+  have simS : ESim ctx T B (fun f c => evalSeq f [index, value] c) (newV ++ newI) s.varCounter (nI + nV) [firstValue ti, firstValue tv] := by
+    have := esim_seq_cons (esim_first simI) (esim_seq_cons (esim_first simV) (esim_seq_nil ctx T B (s.varCounter + nI + nV)))
+    simpa using this
+  have hcx : ctxOf ({ reqSt (adv (reqSt (adv s newI nI) rI) newV nV) rV with sahReq := true } : St) = ctx := hc
+  rw [hcx] at es
+  refine ⟨(newV ++ newI).reverse.map Cmd.simple ++
+      [Cmd.simple (.sah ("${" ++ ctx.mg x.name x.global ++ "}") (firstValue ti) (firstValue tv) d)], nI + nV, 0,
+    (rI.or rV).or ⟨true, false, false⟩, ?_, ?_, ?_⟩
+  · rw [← es, flats_append, flats_simples]
+    simp [adv, adv2, reqSt, Req.or, flats, flat, Nat.add_assoc, Bool.or_assoc]
+  · rw [flats_append, flats_simples]
+    refine ((simS.lines.reverse).mono (Nat.zero_le _)).append ?_
+    simp only [flats, flat, List.append_nil]
+    exact LinesOK.cons (sline_special1 _ _ _ _ (y := "_c") (by decide) rfl rfl) (LinesOK.nil _ _ _)
+  · intro fuel c o c' hs m hi
+    rcases src_sliceAssign hs with ⟨f, k, he, rfl⟩ | ⟨f, a, b, c2, k, w, id, z, i, he, ha, hb, hxv, hz, hi', hle, rfl, rfl⟩
+    · exact simF_exit_of_runs (simS.run f c _ he m hi) _ _
+    · obtain ⟨m1, ex, hi1, hc1, hk1, hh⟩ := runs_ok_then (simS.run f c _ he m hi)
+      have hname : Sem.expand m1.ρ ("${" ++ ctx.mg x.name x.global ++ "}") = some (sliceName id) := by
+        rw [(complete_var m1.ρ _ (ctx.mg_valid _ _ hx)).toExpand, (hi1.agree.read hxv).2]; rfl
+      have hst : stepSimple (.sah ("${" ++ ctx.mg x.name x.global ++ "}") (firstValue ti) (firstValue tv) d) m1 = some (.normal,
+          { m1 with ρ := m1.ρ.set "_c" (toString (max (m1.arr (sliceName id)).length i)),
+                    arr := aset m1.arr (sliceName id) ((sahSet (c2.heap id) i w z).map Val.render) }) := by
+        simp only [stepSimple, hname, hh.1.expandInt hi1.agree ha, Option.bind, hi', hh.2.1.expand hi1.agree hb, hd z hz m1.ρ]
+        rw [hi1.agree.hp.heap id, sahSet_map]
+      have hi2 := (hi1.heap_write id hle (sahSet (c2.heap id) i w z)).set_special (y := "_c") (by decide) (by decide)
+        (toString (max (m1.arr (sliceName id)).length i))
+      refine ⟨_, .normal, execCmds_append ex (execCmds_step rfl hst), trivial, hi2.out, fun _ => ⟨hi2, ⟨hc1.1, hc1.2.1, hc1.2.2⟩, ?_⟩,
+        fun vs hv' => by cases hv'⟩
+      intro nn hB hn
+      show (m1.ρ.set "_c" (toString (max (m1.arr (sliceName id)).length i))) (flagName nn) = m.ρ (flagName nn)
+      rw [Sem.set_other _ _ _ _ (fun e' => special_ne_flag (x := "_c") (by decide) nn e'.symm)]
+      exact hk1.flags nn hB
+
 /-! ### a call whose values are not used (expression statement) -/
 
 theorem call_unused_semF {ctx : Ctx} {T : List FEntry} {B : Nat} (hT : TableOK T) (hctx : CtxOK ctx T B)
     {name : String} {rets : List ValueType} {args : List Expr} (hf : fragE (tnames T) (.call name rets args) = true)
     {s s' : St} {r : List String} (hc : ctxOf s = ctx) (h : Tr.evalExpr conv (.call name rets args) false s = .ok (r, s')) :
-    ∃ new n, s' = adv s new n ∧ ESimW false ctx T B (fun f c => evalE f (.call name rets args) c) new s.varCounter n r := by
+    ∃ new n rq, s' = reqSt (adv s new n) rq ∧ ESimW false ctx T B (fun f c => evalE f (.call name rets args) c) new s.varCounter n r := by
   unfold Tr.evalExpr at h
   simp only [fragE, Bool.and_eq_true, List.contains_iff_mem] at hf
   obtain ⟨as, s1, ha, g1⟩ := bind_ok h
   obtain ⟨vs, s2, hcall, g2⟩ := bind_ok g1
-  obtain ⟨newA, nA, e1, simA⟩ := args_semF hT hctx args s as s1 hf.2 hc ha
+  obtain ⟨newA, nA, rA, e1, simA⟩ := args_semF hT hctx args s as s1 hf.2 hc ha
   subst e1
-  have hcall' : funcCall name as rets false (adv s newA nA) = .ok (vs, s2) := hcall
+  have hcall' : funcCall name as rets false (reqSt (adv s newA nA) rA) = .ok (vs, s2) := hcall
   unfold funcCall at hcall'
   obtain ⟨_, s3, h3, hcall'⟩ := bind_ok hcall'
   have e3 := addLine_ok h3
@@ -539,7 +660,7 @@ theorem call_unused_semF {ctx : Ctx} {T : List FEntry} {B : Nat} (hT : TableOK T
     simp only [tnames, List.mem_map] at this
     exact this
   subst hen
-  refine ⟨Line.callFn e.fd.name as :: newA, nA, by rw [es, es2, e4, e3]; simp [adv], ⟨?_, ?_⟩⟩
+  refine ⟨Line.callFn e.fd.name as :: newA, nA, rA, by rw [es, es2, e4, e3]; simp [adv, reqSt], ⟨?_, ?_⟩⟩
   · refine LinesOK.cons ⟨fun x hx => by simp [lineTargets] at hx, fun nm ar e' => ?_, rfl⟩ simA.lines
     simp only [Line.callFn.injEq] at e'
     rw [← e'.1]
@@ -577,10 +698,10 @@ theorem exprcall_semF {ctx : Ctx} {T : List FEntry} {B : Nat} (hT : TableOK T) (
     StmtSemF ctx T B (fun fuel c => execS fuel (.expr (.call name rets args)) c) s s' := by
   obtain ⟨r, s1, h1, h2⟩ := bind_ok h
   obtain ⟨_, es⟩ := pure_ok h2
-  obtain ⟨new, n, e1, sim⟩ := call_unused_semF hT hctx hf hc h1
+  obtain ⟨new, n, rq, e1, sim⟩ := call_unused_semF hT hctx hf hc h1
   subst e1
-  refine ⟨new.reverse.map Cmd.simple, n, 0, ?_, ?_, ?_⟩
-  · rw [es, flats_simples]; simp [adv, adv2]
+  refine ⟨new.reverse.map Cmd.simple, n, 0, rq, ?_, ?_, ?_⟩
+  · rw [es, flats_simples]; simp [adv, adv2, reqSt]
   · exact linesOK_simples ((sim.lines.reverse).mono (Nat.zero_le _))
   · intro fuel c o c' hs m hi
     cases fuel with
@@ -664,15 +785,15 @@ theorem callassign_semF {ctx : Ctx} {T : List FEntry} {B : Nat} (hT : TableOK T)
     StmtSemF ctx T B src s s' := by
   unfold assignCallValues at h
   obtain ⟨ts, s1, h1, h2⟩ := bind_ok h
-  obtain ⟨new, n, e1, sim⟩ := expr_semF hT hctx call s ts s1 hf hc h1
+  obtain ⟨new, n, rq, e1, sim⟩ := expr_semF hT hctx call s ts s1 hf hc h1
   subst e1
   split at h2
   · simp [Tr.fail] at h2
   · rw [storeValues_run] at h2
     injection h2 with h2
     injection h2 with _ e2
-    refine ⟨new.reverse.map Cmd.simple ++ (storeLines ctx vars ts).map Cmd.simple, n, 0, ?_, ?_, ?_⟩
-    · rw [← e2, flats_append, flats_simples, flats_simples, ctxOf_adv, hc]; simp [adv, adv2]
+    refine ⟨new.reverse.map Cmd.simple ++ (storeLines ctx vars ts).map Cmd.simple, n, 0, rq, ?_, ?_, ?_⟩
+    · rw [← e2, flats_append, flats_simples, flats_simples, ctxOf_reqSt, ctxOf_adv, hc]; simp [adv, adv2, reqSt]
     · rw [flats_append, flats_simples, flats_simples]
       exact ((sim.lines.reverse).mono (Nat.zero_le _)).append (storeLines_ok ctx _ _ vars ts hg)
     · intro fuel c o c' hs m hi
